@@ -207,7 +207,8 @@ func revertAndReoffer(res *lib.Result, g *lib.ChainGen, n *node, task chainTask)
 	if last < 1 {
 		return
 	}
-	full := dbDigest(n.db)
+	legacyTrieNodes := [][]byte{db.StateTrie.Key(), db.ContractStorage.Key(), db.ClassesTrie.Key()}
+	full := dbDigest(filteredCopy(n.db, legacyTrieNodes))
 	if err := n.bc.RevertHead(); err != nil {
 		res.Fatalf("revert history: RevertHead failed: %v", err) // C04's subject; here it only blocks the history
 		return
@@ -231,7 +232,7 @@ func revertAndReoffer(res *lib.Result, g *lib.ChainGen, n *node, task chainTask)
 		res.Violate(lib.Violation{Sig: "valid-block-rejected", What: fmt.Sprintf("after RevertHead the valid head block is rejected: %v", r.err), Replay: rp})
 		return
 	}
-	if dbDigest(n.db) != full {
+	if dbDigest(filteredCopy(n.db, legacyTrieNodes)) != full {
 		res.Violate(lib.Violation{Sig: "stored-content-differs-after-revert-and-restore",
 			What: "revert + re-store of the head block does not give back the database the node had", Replay: rp})
 	}
